@@ -74,3 +74,26 @@ def stog_bit(q, s, nr, delr, rho, lorch):
     lines = p.stdout.split("---\n", 1)[1].splitlines()
     fr = np.array([[float(v) for v in l.split()] for l in lines if l.strip()])
     return fr[:, 0], fr[:, 1]
+
+
+def lowq_conditioning(qmin, smin, qmax, r, lorch, rho):
+    """Element-wise bound on the rounding error that the reference routine's own analytic low-Q term contributes to g(r):
+    its closed forms are quotients with numerators of order one, (…)/r^3 and (…)/r^2 without the Lorch window and
+    (…)/(r -+ pi/Qmax)^2, (…)/(r -+ pi/Qmax) with it, so an error of a few ulps of one is divided by those powers and then by
+    4 pi rho r.  (The Python port evaluates the Lorch case with sinc forms since the F11 repair and is accurate there; the
+    Fortran text is not.)  Used to widen the comparison tolerances where the reference itself is ill-conditioned."""
+    import numpy as np
+    r = np.asarray(r, dtype=float)
+    u = 4.5e-16
+    k = abs(smin) / max(abs(qmin), 1e-300)
+    if lorch:
+        a = np.pi / qmax
+        with np.errstate(all="ignore"):
+            e1 = 4 * u * (1 / (r - a) ** 2 + 1 / (r + a) ** 2) / (2 * a)
+            e2 = 2 * u * (1 / np.abs(r - a) + 1 / np.abs(r + a)) / (2 * a)
+    else:
+        e1 = 6 * u / r ** 3
+        e2 = 3 * u / r ** 2
+    yds = (2 / np.pi) * (e1 * k + e2)
+    out = 10 * yds / (4 * np.pi * rho * r)
+    return np.where(np.isfinite(out), out, np.inf)
